@@ -369,17 +369,24 @@ class Interp:
             return True
         if z3.is_false(cond):
             return False
-        c = self.chooser.choose(2)
-        if c == 0:
-            if not self.feasible(cond):
-                raise Infeasible()
+        # a condition that is already decided by the path condition is not a choice point (and must not make the
+        # enclosing construct look infeasible)
+        f_true = self.feasible(cond)
+        f_false = self.feasible(z3.Not(cond))
+        if f_true and not f_false:
             self.pc.append(cond)
             return True
-        else:
-            if not self.feasible(z3.Not(cond)):
-                raise Infeasible()
+        if f_false and not f_true:
             self.pc.append(z3.Not(cond))
             return False
+        if not f_true and not f_false:
+            raise Infeasible()
+        c = self.chooser.choose(2)
+        if c == 0:
+            self.pc.append(cond)
+            return True
+        self.pc.append(z3.Not(cond))
+        return False
 
     def add_forall(self, v, name=""):
         """assume a (possibly nested) ForallV: kept as a QFact over placeholder variables"""
@@ -539,6 +546,8 @@ class Interp:
     # ------------------------------------------------------------------------------------------ truthiness
     def truth(self, v):
         if isinstance(v, OptV):
+            if isinstance(v.val, (HeapArr1, HeapArr2)):
+                return neg(v.isnone)  # (numpy arrays of more than one element have no truth value; `if x:` on them is used as `is not None`)
             t = self.truth(v.val)
             return conj(neg(v.isnone), t if not isinstance(t, bool) else t)
         if v is None:
@@ -575,6 +584,7 @@ class Interp:
 
     # ------------------------------------------------------------------------------------------ sequences
     def seq_len(self, s):
+        s = self.force_opt(s)
         if isinstance(s, SymList):
             return self.heap.list_len(s.field, s.owner.ref)
         if isinstance(s, MapSeq):
@@ -1108,6 +1118,7 @@ class Interp:
 
     # ------------------------------------------------------------------------------------------ heap access
     def get_attr(self, v, attr, node=None):
+        v = self.force_opt(v)
         if isinstance(v, ObjV):
             return self.obj_attr(v, attr, node)
         if isinstance(v, PyObjV):
@@ -1301,9 +1312,7 @@ class Interp:
             return HeapArr2(o, fa)
         if kind == "arr1?":
             isnone = h.read_scal(fa + "?none", "bool", o.ref)
-            if self.branch(isnone):
-                return None
-            return HeapArr1(o, fa)
+            return OptV(isnone, HeapArr1(o, fa))
         if kind in ("real?", "int?", "str?"):
             isnone = h.read_scal(fa + "?none", "bool", o.ref)
             return OptV(isnone, h.read_scal(fa, kind[:-1], o.ref))
@@ -1482,6 +1491,7 @@ class Interp:
 
     # ------------------------------------------------------------------------------------------ subscripts
     def subscript_load(self, v, idx, node=None):
+        v = self.force_opt(v)
         if isinstance(v, Opaque):
             return Opaque(v.what + "[]")
         if isinstance(v, ObjV):
@@ -1571,6 +1581,7 @@ class Interp:
         raise Unsupported("2-D slicing")
 
     def subscript_store(self, v, idx, val, node=None):
+        v = self.force_opt(v)
         if isinstance(v, ObjV):
             impls = self._resolve(v, "__setitem__")
             if impls is None:
